@@ -133,7 +133,13 @@ def order_table(wd, rng, A, trees, tier):
         extra.append((uexpr.show(t), f"UT({uexpr.cxx(t, A, 'unit')})", d, m, t))
     rng.shuffle(extra)
     limit = 80 if tier == "quick" else 200
-    sample = sample[:limit]
+    # half of the table for named units (those with an origin first: they exercise OrderByOrigin), half for generated scaled /
+    # powered / compound types (avoidance classes 1, 3, 4, 5; OrderByScaleFactor; OrderAsUnitProduct)
+    with_org = [x for x in sample if A.atoms[x[0]]["has_origin"]]
+    others = [x for x in sample if not A.atoms[x[0]]["has_origin"]]
+    rng.shuffle(others)
+    n_named = max(limit // 2, limit - len(extra))
+    sample = (with_org + others)[:n_named]
     sample += extra[:max(0, limit - len(sample))]
     n = len(sample)
     src = os.path.join(wd, "order.cc")
